@@ -40,25 +40,34 @@ LEVEL = "proof"
 THEOREMS = [
     "C15_wf_invariant", "C15_seq_in_log_order", "C15_last_seq_mono", "C15_no_abort", "C15_repoint_nearest",
     "C15_nearest_is_ancestor", "C15_repoint_cycle", "C15_current_kept", "C15_delete_exact", "C15_entries_provenance",
-    "C15_mlog_ok", "C09_by_timestamp", "C09_delete_current", "C09_by_id",
+    "C15_txn_files", "C15_mlog_ok", "C09_by_timestamp", "C09_delete_current", "C09_by_id",
 ]
 REQ = ["DS.Model.MetaBase", "DS.Gen.GenRepoint", "DS.Model.Meta"]
 
 MANIFEST_ENTRY = {
-    "level_text": "C15_wf_invariant (current retained or none; parents nil or retained TRUE ancestors of the ghost history; "
-                  "sequence numbers strictly increasing in commit order and <= last_seq; snapshot log = retained snapshots in "
-                  "commit order), C15_last_seq_mono, C15_no_abort, C15_current_kept, C15_delete_exact, C15_entries_provenance, "
-                  "C15_mlog_ok proved in Coq by induction over ARBITRARY operation histories (no bound on length, arbitrary "
-                  "even decreasing timestamps); C15_repoint_nearest for ALL acyclic parent maps and C15_repoint_cycle "
-                  "(termination within the fuel, result nil or kept and reachable) for ALL maps, over the walk regenerated from "
-                  "repoint_parents_to_surviving_ancestors on every run; C09_by_timestamp / C09_delete_current in the same files; "
-                  "model tied to the code by exhaustive forests and random histories on the real library with an independent reader",
-    "level_note": "trusted: Coq kernel; translator/gen_repoint.py (frame pinned by golden AST); hypotheses of the history "
-                  "theorems: snapshot ids drawn by uuid4 are positive and never repeat, metadata file names never repeat "
-                  "(fresh_ops); single committer (concurrency is C01); physical existence of metadata-log files is checked on "
-                  "the real table by the oracle (nothing in the library deletes metadata/v*.metadata.json), not proved",
-    "technique": "Coq proof (invariant + induction over operation lists; well-founded walk) over translator-regenerated "
-                 "repointing kernel + differential correspondence + implementation-only well-formedness oracle",
+    "level_text": "Proved in Coq by induction over ARBITRARY operation histories (transactions mixing appends / deletes / "
+                  "expiries, delete_snapshot, retention and metadata-log-bound changes; no bound on length; arbitrary, even "
+                  "decreasing, timestamps): C15_wf_invariant (current retained or none; every parent nothing or a retained TRUE "
+                  "ancestor of the ghost history; retained snapshots immutable but for the parent; sequence numbers strictly "
+                  "increasing in commit order and <= last_sequence_number; snapshot log = retained snapshots in commit order), "
+                  "C15_seq_in_log_order, C15_last_seq_mono, C15_no_abort, C15_current_kept, C15_delete_exact + C15_txn_files "
+                  "(a delete removes exactly the named files in either spelling; survivors keep adding snapshot and sequence "
+                  "number), C15_entries_provenance, C15_mlog_ok (log = suffix of the superseded versions, within its bound). "
+                  "C15_repoint_nearest for ALL acyclic parent maps and C15_repoint_cycle (termination within the fuel, result "
+                  "nothing or a kept reachable id) for ALL maps, over the walk REGENERATED from "
+                  "repoint_parents_to_surviving_ancestors on every run. C09_by_timestamp / C09_delete_current / C09_by_id over "
+                  "the same model. Model tied to the code by exhaustive forests (every parent map on <= 5 snapshots x every kept "
+                  "subset) and random histories on the real library, compared after every step through an independent reader; "
+                  "the property text is also judged directly on the implementation's metadata (oracle)",
+    "level_note": "trusted: Coq kernel; translator/gen_repoint.py (frame pinned by golden AST); harness. Hypothesis of the "
+                  "history theorems: fresh_ops (snapshot ids from uuid4 are positive and never repeat; metadata file names never "
+                  "repeat). Single committer (concurrency is C01). Physical existence of the files named by the metadata log is "
+                  "checked on disk by the oracle after every step (nothing in the library deletes metadata/v*.metadata.json), "
+                  "not proved. A previous-versions-max < 1 means 'no trimming' in the code; the bound theorem covers max >= 1. "
+                  "Defect found and fixed on the library branch: delete_files([\"/data/x\"]) did not remove a file registered as "
+                  "\"data/x\" (findings/C15-unchanged-tree.log)",
+    "technique": "Coq proof (invariant + induction over operation lists; fuelled walk with seen-set measure) over a "
+                 "translator-regenerated repointing kernel + differential correspondence + implementation-only oracle",
     "design_ref": "DESIGN.md section 5 C15",
 }
 
@@ -870,7 +879,17 @@ def forest_rows(ctx) -> Tuple[List[List[Tuple[int, Any]]], List[List[Any]]]:
     if "rows" not in _FOREST_CACHE:
         fams = forest_families(ctx)
         _FOREST_CACHE["fams"] = fams
-        _FOREST_CACHE["rows"] = [real_repoint_row(f) for f in fams]
+        rows: List[Any] = []
+        hangs = 0
+        for f in fams:
+            if hangs >= 2:          # a non-terminating walk is established; do not spend 2 s on every cyclic map
+                rows.append(None)
+                continue
+            r = real_repoint_row(f)
+            if r and isinstance(r[-1], tuple):
+                hangs += 1
+            rows.append(r)
+        _FOREST_CACHE["rows"] = rows
     return _FOREST_CACHE["fams"], _FOREST_CACHE["rows"]
 
 
@@ -915,6 +934,8 @@ def corr_forests(ctx) -> None:
     got = coq_eval_batched(exprs, preamble=pre, chunk=250)
     bad = []
     for fam, row, g in zip(fams, impl, got):
+        if row is None:
+            continue   # sweep abandoned after repeated hangs (already reported)
         for mask in range(1 << len(fam)):
             if mask >= len(row) or isinstance(row[mask], tuple):
                 bad.append({"snapshots": fam, "kept_mask": mask, "impl": "does not terminate", "model": repr(g[mask])})
@@ -946,7 +967,7 @@ def oracle_forests(ctx) -> None:
     n_cases = 0
     reported = 0
     for fam, row in zip(fams, rows):
-        for mask, got in enumerate(row):
+        for mask, got in enumerate(row or []):
             n_cases += 1
             msg = forest_case_problem(fam, mask, got)
             if msg and reported < 5:
